@@ -46,3 +46,77 @@ def spec_msg(msg):
 
 def exc_name(e):
     return type(e).__name__
+
+
+def is_valid_message(msg):
+    """Independent validity check of a real Message (documented ranges)."""
+    import numbers
+    if type(msg).__name__ not in ('Message', 'FrozenMessage'):
+        return False
+    t = msg.type
+    if t not in VALUE_NAMES:
+        return False
+    d = vars(msg)
+    if set(d) != set(VALUE_NAMES[t]) | {'type', 'time'}:
+        return False
+    if isinstance(d['time'], bool) or not isinstance(d['time'], numbers.Real):
+        return False
+    for n in VALUE_NAMES[t]:
+        x = d[n]
+        if n == 'data':
+            if not isinstance(x, tuple):
+                return False
+            if not all(type(b) is int and 0 <= b <= 127 for b in x):
+                return False
+            continue
+        if type(x) is not int:
+            return False
+        lo, hi = {'channel': (0, 15), 'pitch': (-8192, 8191), 'pos': (0, 16383),
+                  'frame_type': (0, 7), 'frame_value': (0, 15)}.get(n, (0, 127))
+        if not lo <= x <= hi:
+            return False
+    return True
+
+
+def parse_tok_row(ints):
+    """Row of TokStream: inp | status, buf | out tokens."""
+    n = ints[0]
+    inp = ints[1:1 + n]
+    p = 1 + n
+    status, nb = ints[p], ints[p + 1]
+    buf = ints[p + 2:p + 2 + nb]
+    p += 2 + nb
+    k = ints[p]
+    p += 1
+    out = []
+    for _ in range(k):
+        ln = ints[p]
+        out.append(ints[p + 1:p + 1 + ln])
+        p += 1 + ln
+    return inp, status, buf, out
+
+
+def class_map(rng):
+    """A class-preserving byte substitution (the tokenizer only looks at the
+    class of a byte, so expected outputs map through the same substitution)."""
+    f = {}
+    for b in range(256):
+        if b < 128:
+            f[b] = rng.randrange(128)
+        elif b < 0xc0:
+            f[b] = rng.randrange(0x80, 0xc0)
+        elif b < 0xe0:
+            f[b] = rng.randrange(0xc0, 0xe0)
+        elif b < 0xf0:
+            f[b] = rng.randrange(0xe0, 0xf0)
+        elif b in (0xf1, 0xf3):
+            f[b] = rng.choice((0xf1, 0xf3))
+        elif b in (0xf4, 0xf5):
+            f[b] = rng.choice((0xf4, 0xf5))
+        elif b in (0xf9, 0xfd):
+            f[b] = rng.choice((0xf9, 0xfd))
+        elif b >= 0xf8:
+            f[b] = rng.choice((0xf8, 0xfa, 0xfb, 0xfc, 0xfe, 0xff))
+        else:
+            f[b] = b
+    return f
